@@ -16,7 +16,7 @@ def Ty.Plain (t : Ty) : Prop :=
   | .tuple ts _ => ∀ t', ∀ (_ : t' ∈ ts), Ty.Plain t'
   | .struct ms => ∀ m, ∀ (_ : m ∈ ms), Ty.Plain m.2.2
   | .variant ts => ∀ t', ∀ (_ : t' ∈ ts), Ty.Plain t'
-  | .optional t' | .notUndef t' | .sensitive t' => Ty.Plain t'
+  | .optional t' | .notUndef t' | .sensitive t' | .iterator t' => Ty.Plain t'
   | _ => True
 termination_by t.w
 decreasing_by
@@ -111,6 +111,7 @@ theorem Ty.Plain.ref : ∀ (n : Nat) (t : Ty), t.w ≤ n → t.Plain → t.Ref :
     · exact ih _ (by omega) hp
     · exact ih _ (by omega) hp
     · exact hp
+    · exact ih _ (by omega) hp
 
 theorem Ty.Plain.frag : ∀ (n : Nat) (t : Ty), t.w ≤ n → t.Plain → t.Frag false := by
   intro n
@@ -129,6 +130,7 @@ theorem Ty.Plain.frag : ∀ (n : Nat) (t : Ty), t.w ≤ n → t.Plain → t.Frag
     · exact absurd hp id
     · exact ih _ (by omega) hp
     · exact hp
+    · exact ih _ (by omega) hp
 
 /-- the instance relation of a plain type is the same for both settings of the rule -/
 theorem inst_sfh (t : Ty) (v : Val) (wt : Ty.WF cfg t) (pt : t.Plain) (ok : v.OK) :
